@@ -220,36 +220,100 @@ func (t *c10Tab) negotiate(localIsClient bool, sAuth, cAuth, sEnc, cEnc string, 
 
 // freshNegotiation: at every call of negotiateSecurity the negotiation is a fresh composite literal
 // of the calling function whose outcome fields have not been assigned (so the zero values assumed by
-// the rows are the real initial state).
+// the rows are the real initial state). When the caller is itself a helper that receives the
+// negotiation as a parameter, the same is required of each of its callers (and nothing on the way
+// from the helper's entry to the call may assign the fields).
 func (t *c10Tab) freshNegotiation() int {
 	A := t.A
+	outcome := func(f *types.Var) bool {
+		switch f {
+		case A.negAuthentication, A.negEncryption, A.negEnact, A.negNegotiatedAuth, A.negNegotiatedCrypto:
+			return true
+		}
+		return false
+	}
+	// assignedBefore: an outcome field of the negotiation held in v (an Alloc or a Parameter of fn) is stored on a way to call
+	assignedBefore := func(fn *ssa.Function, v ssa.Value, call ssa.Instruction) string {
+		bad := ""
+		if v.Referrers() == nil {
+			return bad
+		}
+		for _, r := range *v.Referrers() {
+			fa, ok := r.(*ssa.FieldAddr)
+			if !ok || !outcome(fieldOfAddr(fa)) {
+				continue
+			}
+			for _, u := range *fa.Referrers() {
+				if st, ok := u.(*ssa.Store); ok && st.Addr == fa && findPath(after(st), Target{Instr: call}, nil) != nil {
+					bad = fieldOfAddr(fa).Name()
+				}
+			}
+		}
+		return bad
+	}
+	var check func(fn *ssa.Function, call ssa.CallInstruction, arg ssa.Value, depth int) string
+	check = func(fn *ssa.Function, call ssa.CallInstruction, arg ssa.Value, depth int) string {
+		switch x := arg.(type) {
+		case *ssa.Alloc:
+			if f := assignedBefore(fn, x, call); f != "" {
+				return "field " + f + " of the negotiation is assigned before negotiateSecurity runs: the table's initial state is not the zero value"
+			}
+			return ""
+		case *ssa.Parameter:
+			if f := assignedBefore(fn, x, call); f != "" {
+				return "field " + f + " of the negotiation is assigned before negotiateSecurity runs: the table's initial state is not the zero value"
+			}
+			idx := c03ParamIndex(fn, x)
+			sites := t.c.callSites(fn.Object())
+			if depth >= InlineDepth || idx < 0 || fn.Object() == nil || len(sites) == 0 {
+				break
+			}
+			for _, up := range sites {
+				if up.Call.Common().IsInvoke() || idx >= len(up.Call.Common().Args) {
+					return "the negotiation passed to negotiateSecurity is not a fresh literal of the caller: the table's initial state (zero outcome fields) is not established"
+				}
+				if why := check(up.Fn, up.Call, up.Call.Common().Args[idx], depth+1); why != "" {
+					return why
+				}
+			}
+			return ""
+		}
+		// built by a constructor helper: every value it returns is a fresh literal whose outcome fields
+		// the helper leaves alone, and the caller does not assign them before the call either
+		if _, isCall := arg.(*ssa.Call); isCall {
+			if f := assignedBefore(fn, arg, call); f != "" {
+				return "field " + f + " of the negotiation is assigned before negotiateSecurity runs: the table's initial state is not the zero value"
+			}
+			leaves := c03OriginsF(c03Root(fn), arg, nil)
+			for _, lf := range leaves {
+				al, isAlloc := lf.v.(*ssa.Alloc)
+				if !isAlloc || lf.fr.up == nil {
+					leaves = nil
+					break
+				}
+				for _, r := range *al.Referrers() {
+					if fa, ok := r.(*ssa.FieldAddr); ok && outcome(fieldOfAddr(fa)) {
+						for _, u := range *fa.Referrers() {
+							if st, ok := u.(*ssa.Store); ok && st.Addr == fa {
+								return "field " + fieldOfAddr(fa).Name() + " of the negotiation is assigned by the helper that builds it: the table's initial state is not the zero value"
+							}
+						}
+					}
+				}
+			}
+			if len(leaves) > 0 {
+				return ""
+			}
+		}
+		return "the negotiation passed to negotiateSecurity is not a fresh literal of the caller: the table's initial state (zero outcome fields) is not established"
+	}
 	n := 0
 	for _, cs := range t.c.callSites(A.negotiate.Object()) {
 		n++
 		args := callArgs(cs.Call)
 		construct := fnName(cs.Fn) + "#negotiateSecurity(arg)"
-		al, ok := args[len(args)-1].(*ssa.Alloc)
-		if !ok {
-			t.c.Undecided(t.rule, construct, "the negotiation passed to negotiateSecurity is not a fresh literal of the caller: the table's initial state (zero outcome fields) is not established", cs.Call.Pos())
-			continue
-		}
-		bad := ""
-		for _, r := range *al.Referrers() {
-			fa, ok := r.(*ssa.FieldAddr)
-			if !ok {
-				continue
-			}
-			switch fieldOfAddr(fa) {
-			case A.negAuthentication, A.negEncryption, A.negEnact, A.negNegotiatedAuth, A.negNegotiatedCrypto:
-				for _, u := range *fa.Referrers() {
-					if st, ok := u.(*ssa.Store); ok && st.Addr == fa && findPath(after(st), Target{Instr: cs.Call}, nil) != nil {
-						bad = fieldOfAddr(fa).Name()
-					}
-				}
-			}
-		}
-		if bad != "" {
-			t.c.Undecided(t.rule, construct, "field "+bad+" of the negotiation is assigned before negotiateSecurity runs: the table's initial state is not the zero value", cs.Call.Pos())
+		if why := check(cs.Fn, cs.Call, args[len(args)-1], 0); why != "" {
+			t.c.Undecided(t.rule, construct, why, cs.Call.Pos())
 		} else {
 			t.c.Ok(t.rule, construct, "negotiation is a fresh literal with zero outcome fields", cs.Call.Pos())
 		}
@@ -270,13 +334,14 @@ func c10Bool(v c10tVal) string {
 func c10r1(c *Ctx) {
 	const rule = "C10-R1"
 	defer c03Timed(c, rule)()
-	c.Doc(rule, "T-TAB: negotiateSecurity is evaluated by constant folding over its SSA for every (server level x client level) of authentication and of encryption x method-list shapes x cipher-list shapes; each row's (error?, Authentication, Encryption, NegotiatedAuth, NegotiatedCrypto) is compared with the decision written from the property statement (fail iff REQUIRED meets NEVER or a required feature has no common method; authenticate iff a side requires it, or a side prefers it, neither forbids it and a common method exists; encrypt whenever a side requires it; methods chosen in server preference order)")
+	c.Doc(rule, "T-TAB: negotiateSecurity is evaluated by constant folding over its SSA for every (server level x client level) of authentication and of encryption x method-list shapes x cipher-list shapes; each row's (error?, Authentication, Encryption, NegotiatedAuth, NegotiatedCrypto) is compared with the decision written from the property statement (fail iff REQUIRED meets NEVER or a required feature has no common method; authenticate iff a side requires it, or a side prefers it, neither forbids it and a common method exists; encrypt whenever a side requires it; methods chosen in server preference order) Where a check, store or call is looked for, same-module helpers are followed to depth 4 (boolean predicates and value helpers with parameters mapped to arguments, same-package error-returning and effect helpers), and conditions materialised in local booleans are resolved per incoming value.")
 	A := c.handshakeAnchors(rule)
 	if !A.ok {
 		return
 	}
 	t := newC10Tab(c, A, rule)
-	c.MinCount(rule, "negotiateSecurity call sites with a fresh negotiation", t.freshNegotiation(), 2)
+	// (structural minimum: somebody calls negotiateSecurity; both handshakes may share one call site)
+	c.MinCount(rule, "negotiateSecurity call sites with a fresh negotiation", t.freshNegotiation(), 1)
 	type cell struct{ kind, s, cl string }
 	bad := map[cell]string{}
 	badPos := map[cell]token.Pos{}
@@ -372,29 +437,36 @@ func c10r1(c *Ctx) {
 // publication of the server's decision and the client's view
 
 // c10ReaderAttrs: the attribute names whose value parseServerSecurityAd stores into SecurityConfig.field.
+// The store may sit in a helper of the parser, the value may come through value helpers (the attribute
+// name then being an argument), and a same-package function of one argument is taken as a parser of
+// that argument (parseMethodsList(x)).
 func (t *c10Tab) readerAttrs(field *types.Var) []string {
 	var names []string
-	for _, st := range c03StoresTo(t.A.parseAd, field) {
-		for _, o := range origins(t.A.parseAd, st.Val) {
-			v := o
-			// look through a list-parsing helper: parseMethodsList(x)
-			if call, idx := originCall(v); call != nil && idx == 0 && c03SamePkg(calleeFn(call), t.A.parseAd) && len(call.Common().Args) == 1 {
-				os := origins(t.A.parseAd, call.Common().Args[0])
-				if len(os) == 1 {
-					v = os[0]
-				}
-			}
-			call, idx := originCall(v)
+	isParser := func(g *ssa.Function) bool { return c03SamePkg(g, t.A.parseAd) && len(g.Params) == 1 }
+	var follow func(fr *c03Frame, v ssa.Value, d int)
+	follow = func(fr *c03Frame, v ssa.Value, d int) {
+		if d > 4 {
+			return
+		}
+		for _, lf := range c03OriginsF(fr, v, isParser) {
+			call, idx := originCall(lf.v)
 			if call == nil || idx != 0 {
+				continue
+			}
+			if g := calleeFn(call); g != nil && isParser(g) && len(call.Common().Args) == 1 {
+				follow(lf.fr, call.Common().Args[0], d+1)
 				continue
 			}
 			if o := calleeObj(call); o == nil || o.Pkg() == nil || o.Pkg().Name() != "classad" || !c03IsEvaluate(o.Name()) {
 				continue
 			}
-			if n, ok := constString(callArgs(call)[1]); ok {
+			if n, ok := c03ConstStringF(lf.fr, callArgs(call)[1]); ok {
 				names = append(names, n)
 			}
 		}
+	}
+	for _, st := range c03ReachStores(c03Root(t.A.parseAd), field, nil) {
+		follow(st.fr, st.st.Val, 0)
 	}
 	sort.Strings(names)
 	return uniq(names)
@@ -506,7 +578,8 @@ func (t *c10Tab) after(fn *ssa.Function, e *c10tEval, st0 *c10tState) c10After {
 
 // openSummary (memoised per block): from the undecided branch at block `at`, every success return must
 // pass a nil-error performAuthentication; the Authentication flag on those returns is the constant
-// stored on every such path, if the function stores it at all.
+// stored on every such path, if the function stores it at all. The call and the stores may sit in
+// same-package helpers of fn (c03MustPass / c03ReachStores follow them).
 func (t *c10Tab) openSummary(fn *ssa.Function, at *ssa.BasicBlock, pos token.Pos) *c10Open {
 	if s, ok := t.openSum[at]; ok {
 		return s
@@ -514,16 +587,13 @@ func (t *c10Tab) openSummary(fn *ssa.Function, at *ssa.BasicBlock, pos token.Pos
 	A := t.A
 	s := &c10Open{}
 	t.openSum[at] = s
-	cuts := newCuts()
-	calls := callsIn(fn, A.perfAuth.Object())
-	for _, cs := range calls {
-		succ, _, _ := callErrEdges(fn, cs.Value())
-		cuts.AddEdges(succ...)
-	}
-	if len(calls) == 0 {
+	root := c03Root(fn)
+	isPerf := func(fr *c03Frame, call ssa.CallInstruction) bool { return calleeFn(call) == A.perfAuth }
+	if len(c03ReachCalls(root, A.perfAuth, nil)) == 0 {
 		s.bad, s.badPos = "no performAuthentication call after the undecided branch", pos
 		return s
 	}
+	cuts := (&c03MustPass{c: t.c, pkgOf: fn, calls: isPerf}).cutsF(root)
 	succT := t.c.successTargets(fn)
 	for _, tg := range succT {
 		if p := findPath(Point{at, 0}, tg.Target(), cuts); p != nil {
@@ -532,21 +602,35 @@ func (t *c10Tab) openSummary(fn *ssa.Function, at *ssa.BasicBlock, pos token.Pos
 			return s
 		}
 	}
-	var w []ssa.Instruction
-	for _, st := range c03StoresTo(fn, A.negAuthentication) {
-		if findPath(Point{at, 0}, Target{Instr: st}, nil) == nil {
+	nw := 0
+	for _, st := range c03ReachStores(root, A.negAuthentication, func(g *ssa.Function) bool { return g == A.perfAuth }) {
+		// where the store happens as seen from fn: the store itself, or the call in fn that leads to it
+		var in ssa.Instruction = st.st
+		for fr := st.fr; fr != root; fr = fr.up {
+			in = fr.call
+		}
+		if findPath(Point{at, 0}, Target{Instr: in}, nil) == nil {
 			continue
 		}
-		b, ok := constBool(st.Val)
-		if !ok || (len(w) > 0 && b != s.flag) {
-			s.bad, s.badPos = "Authentication is assigned a non-constant or conflicting value after the exchange", st.Pos()
+		b, ok := constBool(st.st.Val)
+		if !ok || (nw > 0 && b != s.flag) {
+			s.bad, s.badPos = "Authentication is assigned a non-constant or conflicting value after the exchange", st.st.Pos()
 			return s
 		}
 		s.flag = b
-		w = append(w, st)
+		nw++
 	}
-	if len(w) > 0 {
-		wc := newCuts().AddInstrs(w...)
+	if nw > 0 {
+		flag := s.flag
+		wc := (&c03MustPass{c: t.c, pkgOf: fn, instrs: func(fr *c03Frame) []ssa.Instruction {
+			var out []ssa.Instruction
+			for _, st := range c03StoresTo(fr.fn, A.negAuthentication) {
+				if b, ok := constBool(st.Val); ok && b == flag {
+					out = append(out, st)
+				}
+			}
+			return out
+		}}).cutsF(root)
 		for _, tg := range succT {
 			if findPath(Point{at, 0}, tg.Target(), wc) != nil {
 				s.bad, s.badPos = "Authentication is assigned on some but not all success paths after the exchange", tg.Ret.Pos()
@@ -603,9 +687,20 @@ func (t *c10Tab) clientCfgIsLocal() {
 	A := t.A
 	ok := false
 	var pos token.Pos
-	for _, s := range c03StoresTo(A.fullClient, A.negClientConfig) {
-		pos = s.Pos()
-		if _, isCfg := c03LoadOf(s.Val, A.aConfig); isCfg {
+	// (the literal may be built by a constructor helper of the handshake)
+	phases := func(g *ssa.Function) bool {
+		return g == A.negotiate || g == A.hClient || g == A.setup || g == A.parseAd
+	}
+	for _, s := range c03ReachStores(c03Root(A.fullClient), A.negClientConfig, phases) {
+		pos = s.st.Pos()
+		isCfg := true
+		os := c03OriginsF(s.fr, s.st.Val, nil)
+		for _, o := range os {
+			if _, is := c03LoadOf(o.v, A.aConfig); !is {
+				isCfg = false
+			}
+		}
+		if isCfg && len(os) > 0 {
 			ok = true
 		} else {
 			ok = false
@@ -625,7 +720,7 @@ func (t *c10Tab) clientCfgIsLocal() {
 func c10r2(c *Ctx) {
 	const rule = "C10-R2"
 	defer c03Timed(c, rule)()
-	c.Doc(rule, "T-TAB on the client's view: negotiateSecurity + handleClientAuthentication evaluated for own level x the server's published answer (the constants createServerSecurityAd writes, read back through parseServerSecurityAd's attribute) x method-list shapes: a declining answer under own REQUIRED fails; otherwise the exchange runs iff the answer is positive and the reported Authentication equals whether it ran")
+	c.Doc(rule, "T-TAB on the client's view: negotiateSecurity + handleClientAuthentication evaluated for own level x the server's published answer (the constants createServerSecurityAd writes, read back through parseServerSecurityAd's attribute) x method-list shapes: a declining answer under own REQUIRED fails; otherwise the exchange runs iff the answer is positive and the reported Authentication equals whether it ran Where a check, store or call is looked for, same-module helpers are followed to depth 4 (boolean predicates and value helpers with parameters mapped to arguments, same-package error-returning and effect helpers), and conditions materialised in local booleans are resolved per incoming value.")
 	A := c.handshakeAnchors(rule)
 	if !A.ok {
 		return
@@ -715,7 +810,7 @@ func c10r2(c *Ctx) {
 func c10r3(c *Ctx) {
 	const rule = "C10-R3"
 	defer c03Timed(c, rule)()
-	c.Doc(rule, "agreement: for every row of the server table that succeeds, the client evaluated on the published answers also succeeds, both ends run the authentication exchange iff the server's Authentication flag is set (handleServerAuthentication gate / client's authRequired), and both report that flag; setupStreamEncryption decides from inputs that are equal on both ends (the two public keys, NegotiatedCrypto, the resumed key) and NegotiatedCrypto agrees")
+	c.Doc(rule, "agreement: for every row of the server table that succeeds, the client evaluated on the published answers also succeeds, both ends run the authentication exchange iff the server's Authentication flag is set (handleServerAuthentication gate / client's authRequired), and both report that flag; setupStreamEncryption decides from inputs that are equal on both ends (the two public keys, NegotiatedCrypto, the resumed key) and NegotiatedCrypto agrees Where a check, store or call is looked for, same-module helpers are followed to depth 4 (boolean predicates and value helpers with parameters mapped to arguments, same-package error-returning and effect helpers), and conditions materialised in local booleans are resolved per incoming value.")
 	A := c.handshakeAnchors(rule)
 	if !A.ok {
 		return
@@ -734,6 +829,27 @@ func c10r3(c *Ctx) {
 	badPos := map[cell]token.Pos{}
 	und := map[cell]bool{}
 	rows := 0
+	// the number of rows the stated policy lets succeed (the minimum to compare; from the oracle, not from the code)
+	want := 0
+	for _, sa := range t.levels() {
+		for _, ca := range t.levels() {
+			for _, se := range t.levels() {
+				for _, ce := range t.levels() {
+					for _, am := range t.authShapes() {
+						for _, cm := range t.cryptoShapes() {
+							_, commonA := c10Common(am.server, am.client, A.authNone)
+							_, commonC := c10Common(cm.server, cm.client, "")
+							failA, _ := A.c10Want(sa, ca, commonA, true)
+							failE, _ := A.c10Want(se, ce, commonC, false)
+							if !failA && !failE {
+								want++
+							}
+						}
+					}
+				}
+			}
+		}
+	}
 	for _, sa := range t.levels() {
 		for _, ca := range t.levels() {
 			k := cell{sa, ca}
@@ -817,7 +933,7 @@ func c10r3(c *Ctx) {
 			}
 		}
 	}
-	c.MinCount(rule, "succeeding server rows compared with the client", rows, 1000)
+	c.MinCount(rule, "succeeding server rows compared with the client", rows, want)
 	c10SetupSymmetric(c, rule, A)
 }
 
@@ -879,7 +995,8 @@ func c10SetupSymmetric(c *Ctx, rule string, A *c03Anchors) {
 		}
 	}
 	c.Ok(rule, fnName(fn)+"#symmetric-branches", fmt.Sprintf("%d outcome-deciding branches read only values shared by both ends", n), fn.Pos())
-	c.MinCount(rule, "outcome-deciding branches of setupStreamEncryption", n, 4)
+	// (structural minimum: the function chooses between an encrypted and a cleartext outcome somewhere)
+	c.MinCount(rule, "outcome-deciding branches of setupStreamEncryption", n, 1)
 }
 
 // ---------------------------------------------------------------------------
@@ -888,23 +1005,22 @@ func c10SetupSymmetric(c *Ctx, rule string, A *c03Anchors) {
 func c10r4(c *Ctx) {
 	const rule = "C10-R4"
 	defer c03Timed(c, rule)()
-	c.Doc(rule, "T-MPT + constant agreement: in ServerHandshakeWithMessage every return reachable from the error edge of negotiateSecurity passes a call of sendNegotiationFailureResponse, which sets ReturnCode to a constant and sends the ad; the client's performFullAuthentication, evaluated with that constant as the received ReturnCode, returns an error before it negotiates")
+	c.Doc(rule, "T-MPT + constant agreement: in ServerHandshakeWithMessage every return reachable from the error edge of negotiateSecurity passes a call of sendNegotiationFailureResponse, which sets ReturnCode to a constant and sends the ad; the client's performFullAuthentication, evaluated with that constant as the received ReturnCode, returns an error before it negotiates Where a check, store or call is looked for, same-module helpers are followed to depth 4 (boolean predicates and value helpers with parameters mapped to arguments, same-package error-returning and effect helpers), and conditions materialised in local booleans are resolved per incoming value.")
 	A := c.handshakeAnchors(rule)
 	if !A.ok {
 		return
 	}
 	fn := A.fullServer
 	n := 0
+	// the denial may be sent by a helper of the handshake (on every return of that helper)
+	denial := &c03MustPass{c: c, pkgOf: fn, all: true, calls: func(fr *c03Frame, call ssa.CallInstruction) bool { return calleeFn(call) == A.sendFail }}
 	for _, cs := range callsIn(fn, A.negotiate.Object()) {
 		_, fail, checked := callErrEdges(fn, cs.Value())
 		if !checked {
 			c.Violate(rule, fnName(fn)+"#negotiateSecurity-error", "the error of negotiateSecurity is not tested", cs.Pos())
 			continue
 		}
-		cuts := newCuts()
-		for _, d := range callsIn(fn, A.sendFail.Object()) {
-			cuts.AddInstrs(d)
-		}
+		cuts := denial.cutsF(c03Root(fn))
 		for _, e := range fail {
 			n++
 			var wit []*ssa.BasicBlock
@@ -933,9 +1049,9 @@ func c10r4(c *Ctx) {
 		return
 	}
 	code, okCode := "", false
-	for _, call := range c03AttrCalls(A.sendFail, c03IsSet, nil)[attr] {
-		if args := callArgs(call); len(args) >= 3 {
-			if v, ok := constString(args[2]); ok {
+	for _, cs := range c03AttrCalls(A.sendFail, c03IsSet, nil)[attr] {
+		if args := callArgs(cs.call); len(args) >= 3 {
+			if v, ok := c03ConstStringF(cs.fr, args[2]); ok {
 				code, okCode = v, true
 			}
 		}
@@ -946,15 +1062,12 @@ func c10r4(c *Ctx) {
 	}
 	sent := 0
 	for _, name := range []string{"PutClassAd", "FinishMessage"} {
-		found := false
-		allInstrs(A.sendFail, func(_ *ssa.BasicBlock, _ int, in ssa.Instruction) {
-			if call, ok := in.(ssa.CallInstruction); ok {
-				if o := calleeObj(call); o != nil && o.Name() == name && o.Pkg() != nil && o.Pkg().Name() == "message" {
-					found = true
-				}
-			}
-		})
-		if found {
+		name := name
+		found := c03ReachCallsWhere(c03Root(A.sendFail), func(call ssa.CallInstruction) bool {
+			o := calleeObj(call)
+			return o != nil && o.Name() == name && o.Pkg() != nil && o.Pkg().Name() == "message"
+		}, nil)
+		if len(found) > 0 {
 			sent++
 		}
 	}
@@ -962,25 +1075,41 @@ func c10r4(c *Ctx) {
 
 	// client: with ReturnCode = code, does performFullAuthentication stop before negotiating?
 	cf := A.fullClient
-	var rcCall ssa.CallInstruction
-	for _, call := range c03AttrCalls(cf, c03IsEvaluate, nil)[attr] {
-		// the first read of the attribute that can reach the negotiateSecurity call
+	// the first read of the attribute - in the handshake or in a helper it calls - that can reach the
+	// negotiateSecurity call; top is the instruction of the handshake at which that read happens
+	var rc *c03CallAt
+	var top ssa.CallInstruction
+	for _, cs := range c03AttrCalls(cf, c03IsEvaluate, nil)[attr] {
+		cs := cs
+		t := cs.call
+		for fr := cs.fr; fr.up != nil; fr = fr.up {
+			t = fr.call
+		}
 		for _, ncs := range callsIn(cf, A.negotiate.Object()) {
-			if findPath(after(call), Target{Instr: ncs}, nil) != nil && rcCall == nil {
-				rcCall = call
+			if findPath(after(t), Target{Instr: ncs}, nil) != nil && rc == nil {
+				rc, top = &cs, t
 			}
 		}
 	}
-	if rcCall == nil {
+	if rc == nil {
 		c.Violate(rule, fnName(cf)+"#rejection-test", "the client does not inspect "+attr+" of the server's response before negotiating", cf.Pos())
 		return
 	}
+	rcCall := rc.call
 	for _, val := range []string{code} {
-		e := &c10tEval{p: c.Prog}
-		st := newC10tState()
-		st.env[rcCall.Value()] = c10tVal{kind: c10tvList, list: []c10tVal{c10tStr(val), c10tBool(true)}}
-		// continue right after the call: evaluate the rest of its block, then follow
-		outs := c10RunAfter(e, cf, rcCall, st)
+		// evaluate the handshake from that instruction on, the read answering (val, true); the helpers on
+		// the way to the read are followed
+		chain := map[*ssa.Function]bool{}
+		for fr := rc.fr; fr.up != nil; fr = fr.up {
+			chain[fr.fn] = true
+		}
+		e := &c10tEval{p: c.Prog, followOnly: chain, onCall: func(_ *c10tState, call ssa.CallInstruction, _ []c10tVal) (c10tVal, bool) {
+			if call == rcCall {
+				return c10tVal{kind: c10tvList, list: []c10tVal{c10tStr(val), c10tBool(true)}}, true
+			}
+			return c10tVal{}, false
+		}}
+		outs := e.runAt(cf, top.Block(), pointOf(top).Idx, nil, newC10tState())
 		verdict, pos := "", rcCall.Pos()
 		for _, o := range outs {
 			switch o.kind {
@@ -1026,19 +1155,19 @@ func c10r4(c *Ctx) {
 // ad also carries).
 func c10ReturnCodeAttr(A *c03Anchors) string {
 	sets := c03AttrCalls(A.sendFail, c03IsSet, nil)
-	regular := c03AttrCalls(A.mkServerAd, c03IsSet, nil)
+	regular := c03BuiltAdCalls(A.mkServerAd, c03IsSet)
 	reads := c03AttrCalls(A.fullClient, c03IsEvaluate, nil)
 	var cands []string
 	for name, calls := range sets {
-		if _, isRegular := regular[name]; isRegular {
+		if _, isRegular := regular[name]; isRegular || name == c03UnresolvedAttr {
 			continue
 		}
 		if _, isRead := reads[name]; !isRead {
 			continue
 		}
-		for _, call := range calls {
-			if len(callArgs(call)) >= 3 {
-				if _, ok := constString(callArgs(call)[2]); ok {
+		for _, cs := range calls {
+			if len(callArgs(cs.call)) >= 3 {
+				if _, ok := c03ConstStringF(cs.fr, callArgs(cs.call)[2]); ok {
 					cands = append(cands, name)
 				}
 			}
@@ -1052,53 +1181,26 @@ func c10ReturnCodeAttr(A *c03Anchors) string {
 	return ""
 }
 
-// c10RunAfter evaluates fn from the instruction after call (same block), with st pre-bound.
-func c10RunAfter(e *c10tEval, fn *ssa.Function, call ssa.CallInstruction, st *c10tState) []c10tOutcome {
-	// execute the rest of the block by hand, then let run() take over at the successor
-	b := call.Block()
-	idx := pointOf(call).Idx
-	for _, in := range b.Instrs[idx+1:] {
-		switch x := in.(type) {
-		case *ssa.If:
-			if bv, ok := e.val(st, x.Cond).isBool(); ok {
-				s := b.Succs[1]
-				if bv {
-					s = b.Succs[0]
-				}
-				return e.run(fn, s, b, st)
-			}
-			return []c10tOutcome{{kind: "open", st: st, at: b, pos: c10CondPos(x), why: "branch condition not determined"}}
-		case *ssa.Jump:
-			return e.run(fn, b.Succs[0], b, st)
-		case *ssa.Return:
-			return []c10tOutcome{{kind: "success", st: st, ret: x, pos: x.Pos()}}
-		default:
-			e.step(st, in)
-		}
-	}
-	return nil
-}
-
 // ---------------------------------------------------------------------------
 // C10-R5: attribute tables of the three handshake ads
 
 func c10r5(c *Ctx) {
 	const rule = "C10-R5"
 	defer c03Timed(c, rule)()
-	c.Doc(rule, "T-SIB writer/reader agreement of attribute-name constants: what parseServerSecurityAd reads is written by createClientSecurityAd or createServerSecurityAd and the decision-carrying attributes by both; what the client reads from the post-auth ad is written by createPostAuthAd; both ends file the session under the published Sid with negotiation.GetSharedSecret() as key")
+	c.Doc(rule, "T-SIB writer/reader agreement of attribute-name constants: what parseServerSecurityAd reads is written by createClientSecurityAd or createServerSecurityAd and the decision-carrying attributes by both; what the client reads from the post-auth ad is written by createPostAuthAd; both ends file the session under the published Sid with negotiation.GetSharedSecret() as key Where a check, store or call is looked for, same-module helpers are followed to depth 4 (boolean predicates and value helpers with parameters mapped to arguments, same-package error-returning and effect helpers), and conditions materialised in local booleans are resolved per incoming value.")
 	A := c.handshakeAnchors(rule)
 	if !A.ok {
 		return
 	}
-	keys := func(m map[string][]ssa.CallInstruction) map[string]bool {
+	keys := func(m map[string][]c03CallAt) map[string]bool {
 		o := map[string]bool{}
 		for k := range m {
 			o[k] = true
 		}
 		return o
 	}
-	wClient := keys(c03AttrCalls(A.mkClientAd, c03IsSet, nil))
-	wServer := keys(c03AttrCalls(A.mkServerAd, c03IsSet, nil))
+	wClient := keys(c03BuiltAdCalls(A.mkClientAd, c03IsSet))
+	wServer := keys(c03BuiltAdCalls(A.mkServerAd, c03IsSet))
 	rParse := c03AttrCalls(A.parseAd, c03IsEvaluate, nil)
 	// exceptions: attributes the shared parser reads that only a non-cedar (HTCondor C++) peer publishes
 	except := map[string]string{
@@ -1110,10 +1212,18 @@ func c10r5(c *Ctx) {
 		names = append(names, name)
 	}
 	sort.Strings(names)
+	for fnm, tab := range map[string]map[string][]c03CallAt{"createClientSecurityAd": c03BuiltAdCalls(A.mkClientAd, c03IsSet), "createServerSecurityAd": c03BuiltAdCalls(A.mkServerAd, c03IsSet), "createPostAuthAd": c03BuiltAdCalls(A.mkPostAuth, c03IsSet), "parseServerSecurityAd": rParse} {
+		for _, cs := range tab[c03UnresolvedAttr] {
+			c.Undecided(rule, fnm+"#attribute-name", "an attribute is read / written under a name that is not a constant (nor a constant argument of the helper doing it): the attribute tables are incomplete", cs.call.Pos())
+		}
+	}
 	for _, name := range names {
+		if name == c03UnresolvedAttr {
+			continue
+		}
 		n++
 		construct := "parseServerSecurityAd#reads:" + name
-		pos := rParse[name][0].Pos()
+		pos := rParse[name][0].call.Pos()
 		if wClient[name] || wServer[name] {
 			c.Ok(rule, construct, "attribute is written by a cedar handshake ad", pos)
 		} else if why, ok := except[name]; ok {
@@ -1122,7 +1232,8 @@ func c10r5(c *Ctx) {
 			c.Violate(rule, construct, "the parser reads attribute "+name+" that neither createClientSecurityAd nor createServerSecurityAd writes (renamed on one side?)", pos)
 		}
 	}
-	c.MinCount(rule, "attributes read by parseServerSecurityAd", n, 14)
+	// (structural minimum: one attribute per decision-carrying field below; not today's number of attributes)
+	c.MinCount(rule, "attributes read by parseServerSecurityAd", n, 5)
 	// decision-carrying fields: the attribute feeding each must be written by both ads
 	t := newC10Tab(c, A, rule)
 	for _, f := range []*types.Var{A.cfgAuthentication, A.cfgEncryption, A.cfgAuthMethods, A.cfgCryptoMethods, A.cfgECDH} {
@@ -1137,18 +1248,28 @@ func c10r5(c *Ctx) {
 			fmt.Sprintf("parsed from %v, written by both the client ad and the server ad", attrs),
 			fmt.Sprintf("SecurityConfig.%s is parsed from %v, which is not written by both createClientSecurityAd (%v) and createServerSecurityAd (%v)", f.Name(), attrs, inC, inS), A.parseAd.Pos())
 	}
-	// post-auth ad: the reads on the ad received after setupStreamEncryption
-	wPost := keys(c03AttrCalls(A.mkPostAuth, c03IsSet, nil))
-	var lastRecv ssa.Value
-	for _, b := range A.fullClient.Blocks {
-		for _, in := range b.Instrs {
-			if call, ok := in.(*ssa.Call); ok {
-				if o := calleeObj(call); o != nil && strings.HasPrefix(o.Name(), "GetClassAd") {
-					for _, sc := range callsIn(A.fullClient, A.setup.Object()) {
-						if findPath(after(sc), Target{Instr: call}, nil) != nil {
-							lastRecv = extractN(call, 0)
-						}
-					}
+	// post-auth ad: the reads on the ad received after setupStreamEncryption (the receive, the reads and
+	// setupStreamEncryption's call may sit in helpers of the handshake)
+	wPost := keys(c03BuiltAdCalls(A.mkPostAuth, c03IsSet))
+	croot := c03Root(A.fullClient)
+	topOf := func(cs c03CallAt) ssa.Instruction {
+		var in ssa.Instruction = cs.call
+		for fr := cs.fr; fr.up != nil; fr = fr.up {
+			in = fr.call
+		}
+		return in
+	}
+	var lastRecv *c03Leaf
+	setups := c03ReachCalls(croot, A.setup, nil)
+	for _, rcv := range c03ReachCallsWhere(croot, func(call ssa.CallInstruction) bool {
+		_, isCall := call.(*ssa.Call)
+		o := calleeObj(call)
+		return isCall && o != nil && strings.HasPrefix(o.Name(), "GetClassAd")
+	}, func(g *ssa.Function) bool { return g == A.hClient || g == A.setup || g == A.negotiate }) {
+		for _, sc := range setups {
+			if topOf(sc) != topOf(rcv) && findPath(after(topOf(sc)), Target{Instr: topOf(rcv)}, nil) != nil {
+				if ex := extractN(rcv.call.Value(), 0); ex != nil {
+					lastRecv = &c03Leaf{rcv.fr, ex}
 				}
 			}
 		}
@@ -1157,33 +1278,43 @@ func c10r5(c *Ctx) {
 		c.Undecided(rule, fnName(A.fullClient)+"#post-auth-ad", "cannot find the ClassAd the client receives after setupStreamEncryption", A.fullClient.Pos())
 		return
 	}
-	rPost := c03AttrCalls(A.fullClient, c03IsEvaluate, func(v ssa.Value) bool { return v == lastRecv })
+	isLastRecv := func(fr *c03Frame, v ssa.Value) bool {
+		rf, rv := c03Resolve(fr, v, nil)
+		return rf == lastRecv.fr && rv == lastRecv.v
+	}
+	rPost := c03AttrCallsF(croot, c03IsEvaluate, isLastRecv)
 	names = names[:0]
 	for name := range rPost {
 		names = append(names, name)
 	}
 	sort.Strings(names)
 	for _, name := range names {
-		c.Check(wPost[name], rule, "post-auth#reads:"+name, "written by createPostAuthAd", "the client reads post-auth attribute "+name+" that createPostAuthAd does not write", rPost[name][0].Pos())
+		if name == c03UnresolvedAttr {
+			c.Undecided(rule, "post-auth#attribute-name", "the client reads the post-auth ad under a name that is not a constant", rPost[name][0].call.Pos())
+			continue
+		}
+		c.Check(wPost[name], rule, "post-auth#reads:"+name, "written by createPostAuthAd", "the client reads post-auth attribute "+name+" that createPostAuthAd does not write", rPost[name][0].call.Pos())
 	}
-	c.MinCount(rule, "post-auth attributes read by the client", len(names), 6)
+	// (structural minimum: the session id is read from it; not today's number of attributes)
+	c.MinCount(rule, "post-auth attributes read by the client", len(names), 1)
 	// the session id: the value published is the value filed on the server; the value read is the value filed on the client
 	sidOK := false
 	var sidAttr string
-	for _, s := range c03StoresTo(A.fullClient, A.negSessionId) {
-		for _, o := range origins(A.fullClient, s.Val) {
-			if call, idx := originCall(o); call != nil && idx == 0 {
-				if a := callArgs(call); len(a) >= 2 && a[0] == lastRecv {
-					sidAttr, _ = constString(a[1])
+	notPhase := func(g *ssa.Function) bool { return g == A.hClient || g == A.setup || g == A.negotiate }
+	for _, s := range c03ReachStores(croot, A.negSessionId, notPhase) {
+		for _, o := range c03OriginsF(s.fr, s.st.Val, nil) {
+			if call, idx := originCall(o.v); call != nil && idx == 0 {
+				if a := callArgs(call); len(a) >= 2 && isLastRecv(o.fr, a[0]) {
+					sidAttr, _ = c03ConstStringF(o.fr, a[1])
 				}
 			}
 		}
 	}
-	for _, call := range c03AttrCalls(A.mkPostAuth, c03IsSet, nil)[sidAttr] {
-		v := stripConv(callArgs(call)[2])
-		for _, sc := range callsIn(A.mkPostAuth, A.storeS.Object()) {
-			for _, a := range sc.Common().Args {
-				if stripConv(a) == v {
+	for _, set := range c03BuiltAdCalls(A.mkPostAuth, c03IsSet)[sidAttr] {
+		v := callArgs(set.call)[2]
+		for _, sc := range c03ReachCalls(c03Root(A.mkPostAuth), A.storeS, nil) {
+			for _, a := range sc.call.Common().Args {
+				if c10SameRootedValue(sc.fr, a, set.fr, v) {
 					sidOK = true
 				}
 			}
@@ -1196,16 +1327,34 @@ func c10r5(c *Ctx) {
 	if gss == nil || keyData == nil {
 		return
 	}
+	// (the KeyInfo may be built in the function or by a helper it calls: stores are collected over the
+	// same-package helpers reached, the stored value is followed through value helpers)
+	stop := func(g *ssa.Function) bool { return g == gss }
 	for _, fn := range []*ssa.Function{A.storeS, A.storeC} {
 		ok, n := true, 0
-		for _, s := range c03StoresTo(fn, keyData) {
+		for _, s := range c03ReachStores(c03Root(fn), keyData, nil) {
 			n++
-			if !c03AllOriginsCallTo(fn, s.Val, gss) {
+			os := c03OriginsF(s.fr, s.st.Val, stop)
+			for _, lf := range os {
+				if call, idx := originCall(lf.v); call == nil || idx != 0 || calleeFn(call) != gss {
+					ok = false
+				}
+			}
+			if len(os) == 0 {
 				ok = false
 			}
 		}
 		c.Check(ok && n > 0, rule, fnName(fn)+"#key=GetSharedSecret", "the cached key is the negotiated shared secret", "the key filed with the session is not negotiation.GetSharedSecret()", fn.Pos())
 	}
+}
+
+// c10SameRootedValue: value a of frame fa and value b of frame fb are the same SSA value once both are
+// resolved through helper parameters (frames of two different walks over the same function are
+// different objects: the functions are compared).
+func c10SameRootedValue(fa *c03Frame, a ssa.Value, fb *c03Frame, b ssa.Value) bool {
+	ra, va := c03Resolve(fa, a, nil)
+	rb, vb := c03Resolve(fb, b, nil)
+	return ra.fn == rb.fn && va == vb
 }
 
 // ---------------------------------------------------------------------------
@@ -1215,30 +1364,101 @@ func c10r6(c *Ctx) {
 	const rule = "C10-R6"
 	defer c03Timed(c, rule)()
 	defer delete(c10Shared, c)
-	c.Doc(rule, "termination of the method retry loop: in handleClientAuthentication every way back to the loop head from a received server selection clears bits of the offered mask (mask &^ x feeding the loop variable) where x is the selection or its round trip through bitmaskToAuthMethod/authMethodToBitmask; the two maps are mutually inverse on every method bit (evaluated by constant folding); the server loop leaves on a zero mask")
+	c.Doc(rule, "termination of the method retry loop: in handleClientAuthentication every way back to the loop head from a received server selection clears bits of the offered mask (mask &^ x feeding the loop variable) where x is the selection or its round trip through bitmaskToAuthMethod/authMethodToBitmask; the two maps are mutually inverse on every method bit (evaluated by constant folding); the server loop leaves on a zero mask Where a check, store or call is looked for, same-module helpers are followed to depth 4 (boolean predicates and value helpers with parameters mapped to arguments, same-package error-returning and effect helpers), and conditions materialised in local booleans are resolved per incoming value.")
 	A := c.handshakeAnchors(rule)
 	if !A.ok {
 		return
 	}
 	fn := A.hClient
-	// the loop variable: a phi that is sent with PutInt and tested against zero
+	root := c03Root(fn)
+	getIntObj := c03MsgMethod(c, rule, "GetInt")
+	keep := func(g *ssa.Function) bool {
+		return g == A.bitToMethod || g == A.methodToBit || (g.Object() != nil && g.Object() == getIntObj)
+	}
+	notPerf := func(g *ssa.Function) bool { return g == A.perfAuth }
+	// the loop variable: a phi of the phase that is sent with PutInt (by the phase or a helper it hands the mask to)
 	var mask *ssa.Phi
-	for _, cs := range callsIn(fn, c03MsgMethod(c, rule, "PutInt")) {
-		if phi, ok := stripConv(callArgs(cs)[2]).(*ssa.Phi); ok {
-			mask = phi
+	for _, cs := range c03ReachCallsObj(root, c03MsgMethod(c, rule, "PutInt"), notPerf) {
+		if rf, rv := c03Resolve(cs.fr, callArgs(cs.call)[2], keep); rf == root {
+			if phi, ok := rv.(*ssa.Phi); ok {
+				mask = phi
+			}
 		}
 	}
 	if mask == nil {
 		c.Undecided(rule, fnName(fn)+"#mask", "cannot identify the offered-mask loop variable (a phi passed to PutInt)", fn.Pos())
 		return
 	}
+	// the server's selection as the phase sees it: result #0 of the GetInt inside the loop, or of the
+	// helper of the phase that reads it and hands it back
 	var resp ssa.Value
-	for _, cs := range callsIn(fn, c03MsgMethod(c, rule, "GetInt")) {
-		if findPath(Point{mask.Block(), 0}, Target{Instr: cs}, nil) != nil {
-			resp = extractN(cs.Value(), 0)
+	for _, cs := range c03ReachCallsObj(root, getIntObj, notPerf) {
+		var top ssa.CallInstruction = cs.call
+		for fr := cs.fr; fr.up != nil; fr = fr.up {
+			top = fr.call
 		}
+		if findPath(Point{mask.Block(), 0}, Target{Instr: top}, nil) == nil || top.Value() == nil {
+			continue
+		}
+		cand := extractN(top.Value(), 0)
+		if cand == nil {
+			continue
+		}
+		if cs.fr != root {
+			// the helper must return exactly what it read
+			same := true
+			os := c03OriginsF(root, cand, keep)
+			for _, lf := range os {
+				if lf.fr != cs.fr || lf.v != extractN(cs.call.Value(), 0) {
+					same = false
+				}
+			}
+			if !same || len(os) == 0 {
+				continue
+			}
+		}
+		resp = cand
 	}
 	n := 0
+	// isSelection: v (in frame fr) is the selection, or authMethodToBitmask(bitmaskToAuthMethod(selection))
+	var isSelection func(fr *c03Frame, v ssa.Value) bool
+	isSelection = func(fr *c03Frame, v ssa.Value) bool {
+		fr, v = c03Resolve(fr, v, keep)
+		if resp != nil && fr == root && v == resp {
+			return true
+		}
+		if call, ok := v.(*ssa.Call); ok && calleeFn(call) == A.methodToBit {
+			ifr, iv := c03Resolve(fr, call.Call.Args[0], keep)
+			if inner, ok := iv.(*ssa.Call); ok && calleeFn(inner) == A.bitToMethod {
+				rfr, rv := c03Resolve(ifr, inner.Call.Args[0], keep)
+				return resp != nil && rfr == root && rv == resp
+			}
+		}
+		return false
+	}
+	isMask := func(fr *c03Frame, v ssa.Value) bool {
+		fr, v = c03Resolve(fr, v, keep)
+		return fr == root && v == ssa.Value(mask)
+	}
+	// clears: value v is `mask &^ selection` / `mask & ^selection`, written inline or returned by a value helper
+	clears := func(v ssa.Value) bool {
+		fr, w := c03Resolve(root, v, keep)
+		b, isB := w.(*ssa.BinOp)
+		if !isB {
+			return false
+		}
+		switch {
+		case b.Op == token.AND_NOT && isMask(fr, b.X):
+			return isSelection(fr, b.Y)
+		case b.Op == token.AND:
+			for _, pair := range [][2]ssa.Value{{b.X, b.Y}, {b.Y, b.X}} {
+				if u, ok := stripConv(pair[1]).(*ssa.UnOp); ok && u.Op == token.XOR && isMask(fr, pair[0]) {
+					return isSelection(fr, u.X)
+				}
+			}
+		}
+		return false
+	}
 	for i, pred := range mask.Block().Preds {
 		in := mask.Edges[i]
 		if len(pred.Instrs) == 0 || findPath(Point{mask.Block(), 0}, Target{Instr: pred.Instrs[len(pred.Instrs)-1]}, nil) == nil {
@@ -1246,37 +1466,7 @@ func c10r6(c *Ctx) {
 		}
 		n++
 		construct := fmt.Sprintf("%s#back-edge%d", fnName(fn), n)
-		ok := mustDepend(fn, in, func(v ssa.Value) bool {
-			b, isB := v.(*ssa.BinOp)
-			if !isB {
-				return false
-			}
-			var cleared ssa.Value
-			switch {
-			case b.Op == token.AND_NOT && stripConv(b.X) == ssa.Value(mask):
-				cleared = b.Y
-			case b.Op == token.AND:
-				for _, pair := range [][2]ssa.Value{{b.X, b.Y}, {b.Y, b.X}} {
-					if u, ok := pair[1].(*ssa.UnOp); ok && u.Op == token.XOR && stripConv(pair[0]) == ssa.Value(mask) {
-						cleared = u.X
-					}
-				}
-			}
-			if cleared == nil {
-				return false
-			}
-			// cleared is the selection, or authMethodToBitmask(bitmaskToAuthMethod(selection))
-			cl := stripConv(cleared)
-			if resp != nil && cl == resp {
-				return true
-			}
-			if call, ok := cl.(*ssa.Call); ok && calleeFn(call) == A.methodToBit {
-				if inner, ok := stripConv(call.Call.Args[0]).(*ssa.Call); ok && calleeFn(inner) == A.bitToMethod && resp != nil && stripConv(inner.Call.Args[0]) == resp {
-					return true
-				}
-			}
-			return false
-		}) && in != ssa.Value(mask)
+		ok := mustDepend(fn, in, clears) && in != ssa.Value(mask)
 		last := pred.Instrs[len(pred.Instrs)-1]
 		lastPos := mask.Pos()
 		for _, pin := range pred.Instrs {
@@ -1287,36 +1477,27 @@ func c10r6(c *Ctx) {
 		c.Check(ok, rule, construct, "the mask carried round the loop has the server's selection cleared", "a way back to the loop head keeps the offered mask unchanged (or does not clear the selection): the retry loop need not terminate", lastPos)
 		// ... and clearing it removes at least one bit: the selection is non-zero and inside the mask
 		if ok && resp != nil {
-			inside, nonzero := false, false
-			for _, e := range c03SubsetEdges(fn, resp, map[ssa.Value]bool{mask: true}) {
-				if instrDominatedByEdge(fn, e, last) {
-					inside = true
-				}
+			isResp := func(fr *c03Frame, v ssa.Value) bool {
+				fr, v = c03Resolve(fr, v, keep)
+				return fr == root && v == resp
 			}
-			for _, b := range fn.Blocks {
-				ifi := blockIf(b)
-				if ifi == nil {
-					continue
-				}
-				a := condAtom(ifi.Cond)
-				if (a.Op != token.EQL && a.Op != token.NEQ) || stripConv(a.X) != resp {
-					continue
+			inside := (&c03MustPass{c: c, pkgOf: fn, atom: func(fr *c03Frame, a Atom) (bool, bool) {
+				return c03SubsetAtom(fr, a, isResp, isMask)
+			}}).dominates(root, last)
+			nonzero := (&c03MustPass{c: c, pkgOf: fn, atom: func(fr *c03Frame, a Atom) (bool, bool) {
+				if (a.Op != token.EQL && a.Op != token.NEQ) || !isResp(fr, a.X) {
+					return false, false
 				}
 				if k, isK := constInt(a.Y); !isK || k != 0 {
-					continue
+					return false, false
 				}
-				nz := Edge{b, 1}
-				if (a.Op == token.NEQ) != a.Neg {
-					nz = Edge{b, 0}
-				}
-				if instrDominatedByEdge(fn, nz, last) {
-					nonzero = true
-				}
-			}
+				return a.Op == token.NEQ, a.Op == token.EQL
+			}}).dominates(root, last)
 			c.Check(inside && nonzero, rule, construct+"#strict", "the cleared selection is non-zero and lies inside the mask: every retry removes a bit", "the selection cleared on this way back is not known to be a non-zero subset of the offered mask: a retry may leave the mask unchanged", lastPos)
 		}
 	}
-	c.MinCount(rule, "back edges of the client retry loop", n, 2)
+	// (structural minimum: a retry loop has a way back to its head)
+	c.MinCount(rule, "back edges of the client retry loop", n, 1)
 	// the two maps are inverse on every method bit: fold both over the case constants
 	bits := map[int64]bool{}
 	allInstrs(A.bitToMethod, func(_ *ssa.BasicBlock, _ int, in ssa.Instruction) {
@@ -1352,35 +1533,106 @@ func c10r6(c *Ctx) {
 		s, _ := meth.isStr()
 		c.Check(back.same(c10tInt(k)), rule, fmt.Sprintf("bit-roundtrip#0x%x", k), "bit -> "+s+" -> same bit", fmt.Sprintf("authMethodToBitmask(bitmaskToAuthMethod(0x%x)) = %s: a failed method's bit is not the bit cleared from the mask", k, back.String()), A.bitToMethod.Pos())
 	}
-	c.MinCount(rule, "method bits round-tripped", m, 7)
-	// server: the loop returns when the client sends a zero mask
+	// (structural minimum: there is a method bit; not today's number of methods)
+	c.MinCount(rule, "method bits round-tripped", m, 1)
+	// server: the loop returns when the client sends a zero mask (the read and the test may sit in a
+	// helper that handles one round: then the helper must not read again, and what it returns on
+	// that way must make its caller leave the loop too)
 	sf := A.hServer
 	okZero := false
-	for _, cs := range callsIn(sf, c03MsgMethod(c, rule, "GetInt")) {
-		v := extractN(cs.Value(), 0)
-		for _, b := range sf.Blocks {
-			ifi := blockIf(b)
-			if ifi == nil {
-				continue
+	var leaves func(fr *c03Frame, starts []Point, again ssa.Instruction) bool
+	leaves = func(fr *c03Frame, starts []Point, again ssa.Instruction) bool {
+		errRet, okRet := false, false
+		for _, st := range starts {
+			if findPath(st, Target{Instr: again}, nil) != nil {
+				return false // back into the loop
 			}
-			a := condAtom(ifi.Cond)
-			if a.Op != token.EQL && a.Op != token.NEQ {
-				continue
+			for _, rp := range c.returnsOf(fr.fn) {
+				if findPath(st, rp.Target(), nil) != nil {
+					if rp.Class == "error" {
+						errRet = true
+					} else {
+						okRet = true
+					}
+				}
 			}
-			if k, isK := constInt(a.Y); !isK || k != 0 || stripConv(a.X) != v {
-				continue
+		}
+		if fr.up == nil {
+			return true
+		}
+		var up []Point
+		if okRet {
+			up = append(up, c03AfterSuccess(fr.up.fn, fr.call)...)
+		}
+		if errRet {
+			if v := fr.call.Value(); v != nil {
+				if _, fail, checked := callErrEdges(fr.up.fn, v); checked {
+					for _, e := range fail {
+						if len(e.To().Instrs) > 0 {
+							up = append(up, Point{e.To(), 0})
+						}
+					}
+				} else {
+					up = append(up, after(fr.call))
+				}
 			}
-			zero := Edge{b, 0}
-			if (a.Op == token.NEQ) != a.Neg {
-				zero = Edge{b, 1}
+		}
+		return leaves(fr.up, up, fr.call)
+	}
+	sroot := c03Root(sf)
+	perfCalls := c03ReachCalls(sroot, A.perfAuth, nil)
+	// posIn: the instruction of frame f's function through which call site x (of f or of a helper below f) is reached
+	posIn := func(x c03CallAt, f *c03Frame) ssa.Instruction {
+		var in ssa.Instruction = x.call
+		for fr := x.fr; fr != nil; fr = fr.up {
+			if fr == f {
+				return in
 			}
-			// from the zero edge no way back into the loop: only returns
-			back := false
-			if len(zero.To().Instrs) > 0 && findPath(Point{zero.To(), 0}, Target{Instr: cs}, nil) != nil {
-				back = true
+			in = fr.call
+		}
+		return nil
+	}
+	for _, cs := range c03ReachCallsObj(sroot, getIntObj, func(g *ssa.Function) bool { return g == A.perfAuth }) {
+		v := extractN(cs.call.Value(), 0)
+		if v == nil {
+			continue
+		}
+		// the read of the client's mask: a method is run after it (other reads, e.g. of the key exchange, are not it)
+		isMaskRead := false
+		for f := cs.fr; f != nil; f = f.up {
+			for _, pc := range perfCalls {
+				if p, q := posIn(cs, f), posIn(pc, f); p != nil && q != nil && p != q && findPath(after(p), Target{Instr: q}, nil) != nil {
+					isMaskRead = true
+				}
 			}
-			if !back {
-				okZero = true
+		}
+		if !isMaskRead {
+			continue
+		}
+		for f := cs.fr; f != nil; f = f.up {
+			for _, b := range f.fn.Blocks {
+				ifi := blockIf(b)
+				if ifi == nil {
+					continue
+				}
+				a := condAtom(ifi.Cond)
+				if a.Op != token.EQL && a.Op != token.NEQ {
+					continue
+				}
+				if k, isK := constInt(a.Y); !isK || k != 0 {
+					continue
+				}
+				if rf, rv := c03Resolve(f, a.X, keep); rf != cs.fr || rv != v {
+					continue
+				}
+				zero := Edge{b, 0}
+				if (a.Op == token.NEQ) != a.Neg {
+					zero = Edge{b, 1}
+				}
+				// from the zero edge no way back into the loop: only returns
+				if len(zero.To().Instrs) > 0 && leaves(f, []Point{{zero.To(), 0}}, posIn(cs, f)) {
+					okZero = true
+				}
 			}
 		}
 	}
